@@ -217,6 +217,7 @@ RULES = [
 LEVEL_TEXT = ("Static call-graph reachability and per-path counting on MIR: nothing reachable from the received-payload handler can send; the only "
               "interface read feeds the dissector and the forwarding action unmodified; every path past the dissector contains exactly one of "
               "{send to next hop, broadcast, drop+count}; broadcast sends once per peer; the dispatcher never hands a non-handshake datagram from a "
-              "non-peer to message handling.")
+              "non-peer to message handling."
+              " A datagram becomes payload only behind decrypt_message (AEAD gate unless the negotiated plain flag), shared with C02.")
 LEVEL_NOTE = "Decides C10.R1-R4 (necessary conditions). Not decided: byte identity and exactly-once over a simulated network."
 TECHNIQUE = "call-graph reachability (who-may-call), per-path action counting on the CFG, loop-exit classification"
